@@ -132,6 +132,60 @@ add('C17', 'Gallina small-step model, one transition per source line, of the del
     'Coq proof (inductive invariant) + exhaustive bounded enumeration inside Coq + deterministic schedule replay on the real code', category='proof')
 
 
+# ---- updates after the proof extensions (statements of record are in coq/theories/Props/Cxx.v) ----
+def amend(pid, text=None, note=None, technique=None):
+    cat, t0, n0, k0 = CHECKS[pid]
+    CHECKS[pid] = (cat, text or t0, n0 if note is None else note, technique or k0)
+
+
+amend('C01', 'Coq theorems about the Gallina model of _Merger/merge (Props/C01.v): soundness of merge for ALL signatures — pure-positional and pure-keyword calls through the '
+      'n-ary fold and the nested form (C01_merge_sound_pos_kw), every non-colliding call for role-consistent pairs (C01_merge2_sound_mixed), both side conditions forced '
+      '(refutations) — plus the small-model theorem for call shapes, decider correctness and the bounded sweeps as an independent cross-check; exhaustive U(2)^2 and random '
+      'n-ary correspondence of the extracted model with /repo; soundness decided on the implementation outputs by the extracted, proved-complete decider.',
+      note='Mixed calls through the n-ary fold (n >= 3) are proved only on the bounded universe stated in the theorem (role consistency is not preserved by a merge step).',
+      technique='Coq proof for all signatures (invariants through every merger stage) + reflective bounded theorems + extracted-model correspondence')
+amend('C03', 'Coq theorems about the Gallina model of _mask (Props/C03.v): exactness and raise condition for ALL valid signatures and all calls, with positional consumption '
+      'and names (C03_positional_exact, C03_names_exact), composition as an equality of whole results, permutation invariance for all 16 hide-flag sets; exhaustive/random '
+      'correspondence; exactness, raise condition, order independence, composition and the hidden-argument clause decided on implementation outputs by extracted deciders.',
+      note='exactness under hide flags is proved on the bounded universe only.')
+amend('C05', note='PARTIAL: the walker model and the algebra it feeds are proved; for wrapper bodies of the statement grammar of Model/Exec.v (own scope: forwarding calls, '
+      'rebinding, augmented assignment, del, item assignment, method calls on / hand-off / aliasing of the stars, unrelated calls, branches; any length and nesting) the '
+      'walker\'s flags are proved to be a sound abstract interpretation of an execution semantics (C05_walker_is_absint, C05_flag_sound), tied to CPython per run (compile = ast.parse '
+      'tree, model flags = CallListerVisitor flags, untouched objects really received); nested scopes are outside that fragment (C05_nested_refuted = known finding); soundness of '
+      'the whole reported signature against execution is exploration. Known findings C05:bound-parameter-reaccepted, C05:role-inconsistent-merge, C05:hide-kwargs-named-pok, '
+      'C05:nested-scope-mutation listed in known_findings.json. ' + DISC_NOTE)
+amend('C08', 'Coq theorems on provenance of whole operations of the model for all inputs (Props/C08.v): exactly one non-empty entry per parameter and nothing else after merge / embed / '
+      'mask / forwards / partial, every listed callable comes from an input, exactness for consistently named inputs, depth rules; the cases where the statement is false of the '
+      'faithful model are refutations reproduced on the implementation; full provenance correspondence (two-stage inputs with shared callables, star-name collisions) + '
+      'well-formedness/exactness/depth rules decided on every implementation result + shared-object histories.')
+amend('C09', 'Coq theorems for all signatures (Props/C09.v): sort/apply round trip, right and left neutrality of a bare star signature (exact laws), idempotence, the fold law for any '
+      'arity (nested and flat merge differ only where an intermediate result is a plain ValueError), bounded exactness; exactness/raise-condition decided on implementation outputs '
+      'for name-aligned role-consistent pairs, fold law on role-consistent triples in parameters and provenance, unary laws.',
+      note='general exactness of merge is proved on the bounded universe only.')
+amend('C10', 'Coq theorems about concile and the contributor theorem for merge of all signatures (Props/C10.v: every result parameter is a contributor\'s parameter or the conciliation '
+      'of two, with the rules for default, annotation and kind; by name for consistently named inputs) + full-metadata correspondence on the metadata universe (annotated stars, '
+      'equal-but-not-identical defaults) + contributor rules decided on implementation results.')
+amend('C15', 'Coq theorems: every Ok result of the model validates, errors are only Incompatible/ValueErr, and for valid role-consistent inputs (any number) merge never fails in the final '
+      'validating constructor (C15_merge_rc_valid_n) (Props/C15.v) + error-class correspondence incl. role-inconsistent inputs, duplicate/foreign names, plain inspect.Signature inputs and DeprecationWarning.')
+amend('C19', 'Coq theorems about the partial branch of the model for ALL valid signatures (Props/C19.v): exactness and raise condition with bound positionals and bound keywords '
+      '(C19_positional_exact, C19_names_exact) + full correspondence + exactness decided by extracted decider and by really calling functools.partial objects on every shape + '
+      'discovery through partial (plain functions and bound methods).')
+
+amend('C12', note='C12_sig (decoration succeeds iff the selection is admissible, exact advertised rewrite) and C12_call (the decorated callable accepts exactly the calls of its advertised '
+      'signature with the same bindings) are proved at full strength for every decorator form, the bound copy and autokwoargs with exceptions (Proofs/ModifiersFull.v); the closed form of '
+      'the start=/end= selection sets is not stated separately; known finding C12:bound-self-selected listed in known_findings.json.')
+amend('C11', note='twin invariance (compute on postponed annotations, then evaluate = compute on the eager twins) is proved for n-ary merge, embed, mask, partial, forwards and the '
+      'composition discovery performs; embed / forwards / discover need the environment injective on the spellings that occur (refutations show the forcing inputs), mask and partial need '
+      'nothing; known finding C11:raw-compare listed in known_findings.json.')
+amend('C20', note='round trip read_sig(print_sig s) + code generation proved for ALL well-formed signatures and every spelling (Proofs/SupportFull.v), with refutations of the hypotheses the '
+      'proofs forced (postponed annotations do not survive their own string form; kwoargs spelling with positional-only parameters — excluded by the property); the regular expression, '
+      'str.split and the compiler are tied by the differential run only.')
+amend('C17', note='for ANY number of threads and ANY schedule: no attribute is lost, every `exclusive` schedule gives every thread its solo answer (C17_sequential_exclusive, C17_concurrent_equals_solo) '
+      'and a non-sequential answer needs a window overlap; the same for the as_forged guard and for the once-only transform of emulate=True forgers (machine F); the model is line-exact: any edit '
+      'of the modelled functions shows up as model disagreement (no-failing-input-found) until the model is re-synchronised (procedure in notes/C17.md); preemption inside C code and the GIL\'s '
+      'true granularity cannot be exhibited by the model (covered by the stress part only). Known findings C17:wrapped-window, C17:guard-race listed in known_findings.json.')
+
+
 def main():
     props = [json.loads(l)['id'] for l in open(os.path.join(VERIF, 'properties.jsonl'))]
     extra = {}
